@@ -256,6 +256,20 @@ fn build_wal_base(rng: &mut Rng) -> Result<Base, String> {
     let mut written = 0usize;
     let mut counter = 0u64;
     let mut universe = BTreeSet::new();
+    // The first record of the log is one batch of 600 puts of 120 bytes each (72 KB): it is stored
+    // as First / Middle / Last fragments, and its entries are laid out so that the Middle fragment
+    // starts nine bytes before an entry (text filler in the values).
+    {
+        let mut ops: Vec<WriteOp> = vec![];
+        for i in 0..600u32 {
+            let key = format!("k{i:05}").into_bytes();
+            let mut value = format!("old-{i:05}-").into_bytes();
+            value.resize(111, b'x');
+            universe.insert(key.clone());
+            ops.push((key, Some(value)));
+        }
+        sess.write(ops)?;
+    }
     // One value carries the image of a complete log record of another database (an application
     // that stores log chunks or nested database files as values). The sizes are chosen so that one
     // flipped bit in the length field of this batch's log record makes "header + length" point at
@@ -388,7 +402,37 @@ fn is_subset_state(base: &Base, state: &Map) -> bool {
                 apply_to_map(&mut prefix, &base.wal_batches[i]);
             }
         }
-        // any other subset cannot be enumerated: per-key necessary condition only
+        // any other subset cannot be enumerated. Necessary conditions: a batch is applied as a
+        // whole (judged on the keys that no other batch touches) ...
+        let mut touched: BTreeMap<&Vec<u8>, usize> = BTreeMap::new();
+        for b in &base.wal_batches {
+            let keys: BTreeSet<&Vec<u8>> = b.iter().map(|(k, _)| k).collect();
+            for k in keys {
+                *touched.entry(k).or_default() += 1;
+            }
+        }
+        for b in &base.wal_batches {
+            let (mut applied, mut not_applied) = (0usize, 0usize);
+            for (k, v) in b {
+                if touched.get(k) != Some(&1) || base.tables_only.contains_key(k) || b.iter().filter(|(k2, _)| k2 == k).count() != 1 {
+                    continue;
+                }
+                match v {
+                    Some(v) => {
+                        if state.get(k) == Some(v) {
+                            applied += 1;
+                        } else {
+                            not_applied += 1;
+                        }
+                    }
+                    None => {}
+                }
+            }
+            if applied > 0 && not_applied > 0 {
+                return false;
+            }
+        }
+        // ... and every value shown was written for that key
         state.iter().all(|(k, v)| base.tables_only.get(k) == Some(v) || base.wal_batches.iter().any(|b| b.iter().any(|(bk, bv)| bk == k && bv.as_ref() == Some(v))))
     }
 }
